@@ -11,7 +11,9 @@
 
     Projection notes.  The model does not model primary key assignment: rtree ids are mapped by the
     harness to the position of the row with that key (ORDER BY rowid); a NULL primary key in the input
-    stays [VNull] in the observation when the file holds the expected auto-assigned key. *)
+    stays [VNull] in the observation when the file holds the expected auto-assigned key.  A time.Time
+    attribute (column declared DATE / DATETIME / TIMESTAMP) is [VTime ns]: the instant in nanoseconds; the
+    harness reads the cell raw (the driver's text layout) and parses it. *)
 From Coq Require Import ZArith NArith List Bool String.
 From Texel Require Import Prelude.Corr.
 From Texel Require Export Gpkg.Model.
